@@ -271,6 +271,8 @@ class Scheduler:
         if use_monitoring is None:
             use_monitoring = hasattr(sys, "monitoring") and os.environ.get("VERIF_SETTRACE") != "1"
         self.use_monitoring = use_monitoring and n > 1
+        self._arm: Dict[int, List[Any]] = {}
+        self.injected = 0
         self.n = n
         self.rnd = random.Random(seed)
         self.policy = Policy(policy_spec, self.rnd, n)
@@ -410,6 +412,19 @@ class Scheduler:
         else:
             d.append([t, 1])
 
+    # -- injected interrupts (what a signal handler, the allocator or the stack limit can raise at an
+    # arbitrary line): armed by the workload for the running thread, delivered at its k-th next
+    # pre-emption point
+    def arm(self, t: int, k: int, exc: type) -> bool:
+        if not self.use_monitoring:
+            return False  # an exception out of a settrace function would switch tracing off
+        self._arm[t] = [max(1, int(k)), exc]
+        return True
+
+    def disarm(self, t: int) -> bool:
+        a = self._arm.pop(t, None)
+        return a is not None and a[0] is None
+
     def yield_point(self, site: Tuple) -> None:
         if not self.active:
             return
@@ -423,6 +438,14 @@ class Scheduler:
         if steps > self.step_cap:
             self._abort(StepCap(f"step cap {self.step_cap} reached"))
             raise SimAbort()
+        if self._arm:
+            a = self._arm.get(me)
+            if a is not None and a[0] is not None:
+                a[0] -= 1
+                if a[0] <= 0:
+                    a[0] = None  # fired: the exception is delivered at this pre-emption point
+                    self.injected += 1
+                    raise a[1]("injected by the simulator")
         el = self._el_cache
         if el is None or steps >= self._el_valid_until:
             el = self._eligible()
